@@ -21,7 +21,9 @@ package ledger
 // destroy allowed once): create(total in {0,1,10}, default-frozen in {f,t});
 // opt-in(X); xfer(X->Y, amt in {0,1,all,all+1}); clawback(X->Y, amt in {1,all}) sent by the
 // clawback address; fake-clawback(X->Y,1) sent by an address that is not the clawback;
-// freeze(X)/unfreeze(X) sent by the freeze address; close-out(X->Y); config: clear
+// freeze(X)/unfreeze(X) sent by the freeze address; close-out(X->Y); close-out with
+// AssetCloseTo = the sender itself (alone, or after a 1-unit transfer to another account)
+// and close-out(X->Y) after a 1-unit transfer to the third account; config: clear
 // clawback / clear freeze / clear manager / "restore all roles" (must not resurrect a
 // cleared role); destroy. Operations whose amount coincides with an earlier alphabet
 // entry in the current state are disabled (pure duplicates).
@@ -126,9 +128,10 @@ const (
 	c22kCfgRestore
 	c22kDestroy
 	c22kFakeClaw
+	c22kCloseX // close-out variants: close-to-self, and close-out combined with a 1-unit transfer
 )
 
-var c22kindNames = [...]string{"create", "optin", "xfer", "freeze", "clawback", "closeout", "cfg-clear", "cfg-restore", "destroy", "fake-clawback"}
+var c22kindNames = [...]string{"create", "optin", "xfer", "freeze", "clawback", "closeout", "cfg-clear", "cfg-restore", "destroy", "fake-clawback", "closeout-x"}
 
 type c22op struct {
 	kind  int
@@ -136,6 +139,7 @@ type c22op struct {
 	sel   int    // amount selector / total / which role
 	flag  bool   // default-frozen / frozen
 	total uint64 // create
+	z     int    // closeout-x: receiver of the 1-unit transfer part (-1: none, amount 0)
 }
 
 var c22acct = [...]string{"C", "A", "B"}
@@ -162,6 +166,11 @@ func (o c22op) String() string {
 		return "destroy"
 	case c22kFakeClaw:
 		return fmt.Sprintf("fake-clawback(%s->%s,1)", c22acct[o.x], c22acct[o.y])
+	case c22kCloseX:
+		if o.z < 0 {
+			return fmt.Sprintf("closeout(%s->%s)", c22acct[o.x], c22acct[o.y])
+		}
+		return fmt.Sprintf("closeout(%s->%s, after xfer 1 to %s)", c22acct[o.x], c22acct[o.y], c22acct[o.z])
 	}
 	return "?"
 }
@@ -204,6 +213,13 @@ func c22alphabet() []c22op {
 	}
 	ops = append(ops, c22op{kind: c22kCfgRestore}, c22op{kind: c22kDestroy})
 	pairs(func(x, y int) { ops = append(ops, c22op{kind: c22kFakeClaw, x: x, y: y}) })
+	// close-out aliases: AssetCloseTo == sender (alone, or after sending 1 unit to someone
+	// else), and an ordinary close-out that first sends 1 unit to the third account
+	for x := 0; x < 3; x++ {
+		ops = append(ops, c22op{kind: c22kCloseX, x: x, y: x, z: -1})
+	}
+	pairs(func(x, y int) { ops = append(ops, c22op{kind: c22kCloseX, x: x, y: x, z: y}) })
+	pairs(func(x, y int) { ops = append(ops, c22op{kind: c22kCloseX, x: x, y: y, z: 3 - x - y}) })
 	return ops
 }
 
@@ -233,6 +249,10 @@ func (o c22op) amount(ref *c22ref) (amt uint64, dup bool) {
 		return all, all <= 1
 	case c22kFakeClaw:
 		return 1, false
+	case c22kCloseX:
+		if o.z >= 0 {
+			return 1, false
+		}
 	}
 	return 0, false
 }
@@ -315,6 +335,57 @@ func (ref *c22ref) judge(o c22op, amt uint64) (c22verdict, func(r *c22ref)) {
 		}
 		if y == 0 {
 			return c22Either, eff // documented extra path: closing to the creator ignores freeze
+		}
+		return c22Reject, none
+	case c22kCloseX:
+		// an asset transfer of amt units to z (if any) followed by closing the rest of x's
+		// holding to y, where y may be x itself: then the units have nowhere to go, so a
+		// non-empty holding cannot be closed to its own account.
+		h := ref.H
+		if amt > 0 {
+			z := o.z
+			if !(h[x].In && h[z].In && !h[x].Frozen && !h[z].Frozen && h[x].Amt >= amt) {
+				return c22Reject, none
+			}
+			h[x].Amt -= amt
+			h[z].Amt += amt
+		}
+		if !h[x].In {
+			return c22Reject, none
+		}
+		if ref.Exists && x == 0 {
+			return c22Reject, none
+		}
+		rem := h[x].Amt
+		eff := func(r *c22ref) {
+			hh := h
+			if y != x && hh[y].In {
+				hh[y].Amt += rem
+			}
+			hh[x] = c22hold{}
+			r.H = hh
+		}
+		if y == x {
+			if rem > 0 {
+				return c22Reject, none
+			}
+			return c22Either, eff
+		}
+		frozen := h[x].Frozen || (h[y].In && h[y].Frozen)
+		if rem == 0 {
+			if h[y].In && !frozen {
+				return c22Accept, eff
+			}
+			return c22Either, eff
+		}
+		if !h[y].In {
+			return c22Reject, none
+		}
+		if !frozen {
+			return c22Accept, eff
+		}
+		if y == 0 {
+			return c22Either, eff
 		}
 		return c22Reject, none
 	case c22kCfgClear:
@@ -438,6 +509,11 @@ func (s *c22sys) build(o c22op, amt uint64) *txntest.Txn {
 		tx = txntest.Txn{Type: "afrz", Sender: e.addr[e.roles[1]], FreezeAsset: aid, FreezeAccount: e.addr[o.x], AssetFrozen: o.flag}
 	case c22kClose:
 		tx = txntest.Txn{Type: "axfer", Sender: e.addr[o.x], XferAsset: aid, AssetReceiver: e.addr[o.y], AssetCloseTo: e.addr[o.y]}
+	case c22kCloseX:
+		tx = txntest.Txn{Type: "axfer", Sender: e.addr[o.x], XferAsset: aid, AssetCloseTo: e.addr[o.y], AssetAmount: amt}
+		if o.z >= 0 {
+			tx.AssetReceiver = e.addr[o.z]
+		} // else: zero-amount transfer to the zero address, only the close-to matters
 	case c22kCfgClear, c22kCfgRestore:
 		p := basics.AssetParams{Manager: s.roleAddr(0, s.ref.Mgr), Reserve: e.addr[0], Freeze: s.roleAddr(1, s.ref.Frz), Clawback: s.roleAddr(2, s.ref.Clw)}
 		if o.kind == c22kCfgRestore {
